@@ -358,6 +358,31 @@ def check_schema_strategy_target(i: int, pre: bool) -> bool:
             return (not r.get("ok")) and X + "InvalidConfiguration" in (r.get("exc_mro") or []) and not r.get("target_exists")
 
 
+BAD_VARNAMES = ["1schema", "class", "x y", "a-b", "", "x = 1; y"]
+
+
+def check_schema_strategy_names(i: int, which: bool, t: int, pre: bool) -> bool:
+    """
+    post: _
+    """
+    k, tk = pick(i, len(BAD_VARNAMES)), pick(t, 4)
+    wh, pr = (True if which else False), (True if pre else False)
+    with NoTracing():
+        with opened_auditwall():
+            # a variable name that is not an identifier is a violated constraint whatever the (valid) target file is called
+            target = ["schema.py", "schema.PY", "out.graphql", "out.GQL"][tk]
+            cfg = {"target_file_path": target, ("schema_variable_name" if wh else "type_map_variable_name"): BAD_VARNAMES[k]}
+            job = {"schema": SDL, "strategy": "graphqlschema", "config": cfg}
+            if pr:
+                job["preexisting"] = {"x": "# previous schema file\n"}
+            r = gen.generate(job)
+            if r.get("ok") or X + "InvalidConfiguration" not in (r.get("exc_mro") or []):
+                return False
+            if pr:
+                return list((r.get("files") or {}).values()) == ["# previous schema file\n"]
+            return not r.get("target_exists")
+
+
 def twin_invalid_operation_rejected(i: int, pre: int) -> bool:
     """
     post: _
